@@ -23,18 +23,26 @@ pub struct DistRun {
     pub hub: Hub,
     pub users: Vec<Addr>,
     pub dao: Addr,
+    /// assets followed: ["uwhale"], or ["uwhale", "uusdc"] when the owner switches the distribution asset mid-history
+    /// (kind multi). Every event is then recorded once per asset, as that asset's projection of the history; the
+    /// projections are emitted as separate runs (2*run, 2*run+1) and validated against the same specification.
+    pub denoms: Vec<&'static str>,
+    pub bufs: Vec<Vec<Value>>,
 }
 
-fn amt_of(assets: &[Asset]) -> u128 {
-    assets.iter().filter(|a| a.info == AssetInfo::NativeToken { denom: "uwhale".into() }).map(|a| a.amount.u128()).sum()
+fn amt_of(assets: &[Asset], denom: &str) -> u128 {
+    assets.iter().filter(|a| a.info == AssetInfo::NativeToken { denom: denom.into() }).map(|a| a.amount.u128()).sum()
 }
 
 impl DistRun {
-    pub fn new(grace: u64) -> DistRun {
+    pub fn new(grace: u64) -> DistRun { DistRun::new_kind(grace, false) }
+
+    pub fn new_kind(grace: u64, multi: bool) -> DistRun {
         let mut w = World::new();
         let now = w.now_nanos();
         w.add_denom("uwhale");
         w.add_denom("ubtc");
+        w.add_denom("uusdc");
         let hub = w.new_hub(grace, DAY, now + 1_000_000_000, "uwhale", &["uwhale", "ubtc"], 1_000_000_000_000);
         let users: Vec<Addr> = USERS.iter().map(|u| w.add_account(u)).collect();
         for u in &users {
@@ -42,7 +50,14 @@ impl DistRun {
             w.mint_native(u, "ubtc", 1u128 << 100);
         }
         let dao = w.add_account("dao");
-        DistRun { w, hub, users, dao }
+        let denoms = if multi { vec!["uwhale", "uusdc"] } else { vec!["uwhale"] };
+        let bufs = denoms.iter().map(|_| vec![]).collect();
+        DistRun { w, hub, users, dao, denoms, bufs }
+    }
+
+    pub fn distribution_denom(&self) -> String {
+        let cfg: Config = self.w.query(&self.hub.distributor, &QueryMsg::Config {}).unwrap();
+        match cfg.distribution_asset { AssetInfo::NativeToken { denom } => denom, AssetInfo::Token { contract_addr } => contract_addr }
     }
 
     pub fn current_id(&self) -> u64 {
@@ -50,15 +65,18 @@ impl DistRun {
         r.epoch.id.u64()
     }
 
-    pub fn obs(&self) -> Value {
+    pub fn obs(&self) -> Value { self.obs_for("uwhale") }
+
+    pub fn obs_for(&self, denom: &str) -> Value {
         let w = &self.w;
+        let multi = self.denoms.len() > 1;
         let n = self.current_id();
         let mut eps = vec![];
         for id in 1..=n {
             let r: EpochResponse = w.query(&self.hub.distributor, &QueryMsg::Epoch { id: Uint64::new(id) }).unwrap();
-            eps.push(json!({"id": id, "start": r.epoch.start_time.nanos().to_string(), "total": s(amt_of(&r.epoch.total)),
-                "available": s(amt_of(&r.epoch.available)), "claimed": s(amt_of(&r.epoch.claimed)),
-                "other": r.epoch.total.len() > 1 || r.epoch.available.len() > 1}));
+            eps.push(json!({"id": id, "start": r.epoch.start_time.nanos().to_string(), "total": s(amt_of(&r.epoch.total, denom)),
+                "available": s(amt_of(&r.epoch.available, denom)), "claimed": s(amt_of(&r.epoch.claimed, denom)),
+                "other": !multi && (r.epoch.total.len() > 1 || r.epoch.available.len() > 1)}));
         }
         let cfg: Config = w.query(&self.hub.distributor, &QueryMsg::Config {}).unwrap();
         let mut wal = serde_json::Map::new();
@@ -66,22 +84,22 @@ impl DistRun {
         let mut bonded = serde_json::Map::new();
         let mut claimable = serde_json::Map::new();
         for (i, u) in self.users.iter().enumerate() {
-            wal.insert(USERS[i].into(), s(w.balance(u, &A::Native("uwhale".into()))));
+            wal.insert(USERS[i].into(), s(w.balance(u, &A::Native(denom.into()))));
             let b: BondedResponse = w.query(&self.hub.lair, &white_whale_std::whale_lair::QueryMsg::Bonded { address: u.to_string() }).unwrap();
             first.insert(USERS[i].into(), json!(b.first_bonded_epoch_id.to_string()));
             bonded.insert(USERS[i].into(), json!(!b.bonded_assets.is_empty()));
             let c: ClaimableEpochsResponse = w.query(&self.hub.distributor, &QueryMsg::Claimable { address: u.to_string() }).unwrap();
             claimable.insert(USERS[i].into(), Value::Array(c.epochs.iter().map(|e| json!(e.id.u64())).collect()));
         }
-        json!({"eps": eps, "dbal": s(w.balance(&self.hub.distributor, &A::Native("uwhale".into()))),
-            "cbal": s(w.balance(&self.hub.collector, &A::Native("uwhale".into()))),
-            "dao": s(w.balance(&self.dao, &A::Native("uwhale".into()))),
+        json!({"eps": eps, "dbal": s(w.balance(&self.hub.distributor, &A::Native(denom.into()))),
+            "cbal": s(w.balance(&self.hub.collector, &A::Native(denom.into()))),
+            "dao": s(w.balance(&self.dao, &A::Native(denom.into()))),
             "w": Value::Object(wal), "grace": cfg.grace_period.u64(), "first": Value::Object(first),
             "bonded": Value::Object(bonded), "claimable": Value::Object(claimable), "now": w.now_nanos().to_string()})
     }
 
     /// shares the lair reports for the user's claimable epochs (what Claim will use)
-    fn shares(&self, ui: usize) -> Value {
+    fn shares(&self, ui: usize, denom: &str) -> Value {
         let u = &self.users[ui];
         let c: ClaimableEpochsResponse = self.w.query(&self.hub.distributor, &QueryMsg::Claimable { address: u.to_string() }).unwrap();
         let mut out = vec![];
@@ -89,21 +107,19 @@ impl DistRun {
             let r: Result<BondingWeightResponse, _> = self.w.query(&self.hub.lair, &white_whale_std::whale_lair::QueryMsg::Weight {
                 address: u.to_string(), timestamp: Some(e.start_time), global_index: Some(e.global_index.clone()) });
             out.push(json!({"id": e.id.u64(), "share": match r { Ok(x) => s(x.share.atomics().u128()), Err(_) => json!("err") },
-                "total": s(amt_of(&e.total))}));
+                "total": s(amt_of(&e.total, denom))}));
         }
         Value::Array(out)
     }
 
     pub fn step(&mut self, rec: &mut Rec, run: u64, step: usize, op: &str, ui: usize, x: u128) {
         let u = self.users[ui.min(2)].clone();
-        let mut ev = serde_json::Map::new();
-        ev.insert("run".into(), json!(run));
-        ev.insert("step".into(), json!(step));
-        ev.insert("ev".into(), json!(op));
-        ev.insert("actor".into(), json!(if op == "setgrace" { "owner" } else { USERS[ui.min(2)] }));
-        let mut pre = json!({});
-        let wallet_before = self.w.balance(&u, &A::Native("uwhale".into()));
-        let dbal_before = self.w.balance(&self.hub.distributor, &A::Native("uwhale".into()));
+        let denoms = self.denoms.clone();
+        let multi = denoms.len() > 1;
+        let actor = if op == "setgrace" || op == "setasset" { "owner" } else { USERS[ui.min(2)] };
+        let wallet_before: Vec<u128> = denoms.iter().map(|d| self.w.balance(&u, &A::Native((*d).into()))).collect();
+        let dbal_before: Vec<u128> = denoms.iter().map(|d| self.w.balance(&self.hub.distributor, &A::Native((*d).into()))).collect();
+        let mut pres: Vec<Value> = denoms.iter().map(|_| json!({})).collect();
         let rs = match op {
             "newepoch" => {
                 // time moves to the next boundary if it has not been reached, the inflow arrives at the collector
@@ -115,12 +131,14 @@ impl DistRun {
                     self.w.advance(boundary - now, 1);
                 }
                 let col = self.hub.collector.clone();
-                self.w.mint_native(&col, "uwhale", x);
-                pre = json!({"inflow": s(self.w.balance(&col, &A::Native("uwhale".into())))});
+                let dd = self.distribution_denom();
+                self.w.mint_native(&col, &dd, x);
+                // the collector forwards its whole balance of the distribution asset and nothing else
+                pres = denoms.iter().map(|d| json!({"inflow": s(if *d == dd { self.w.balance(&col, &A::Native((*d).into())) } else { 0 })})).collect();
                 self.w.exec(&u, &self.hub.distributor.clone(), &ExecuteMsg::NewEpoch {}, &[])
             }
             "claim" => {
-                pre = json!({"shares": self.shares(ui)});
+                pres = denoms.iter().map(|d| json!({"shares": self.shares(ui, d)})).collect();
                 self.w.exec(&u, &self.hub.distributor.clone(), &ExecuteMsg::Claim {}, &[])
             }
             "bond" => self.w.exec(&u, &self.hub.lair.clone(), &white_whale_std::whale_lair::ExecuteMsg::Bond {
@@ -129,25 +147,51 @@ impl DistRun {
                 asset: Asset { info: AssetInfo::NativeToken { denom: "ubtc".into() }, amount: Uint128::new(x.max(1)) } }, &[]),
             "setgrace" => self.w.exec(&self.w.owner.clone(), &self.hub.distributor.clone(), &ExecuteMsg::UpdateConfig {
                 owner: None, bonding_contract_addr: None, fee_collector_addr: None, grace_period: Some(Uint64::new(x as u64)), distribution_asset: None, epoch_config: None }, &[]),
+            "setasset" => {
+                let to = if x % 2 == 0 { "uwhale" } else { "uusdc" };
+                self.w.exec(&self.w.owner.clone(), &self.hub.distributor.clone(), &ExecuteMsg::UpdateConfig {
+                    owner: None, bonding_contract_addr: None, fee_collector_addr: None, grace_period: None,
+                    distribution_asset: Some(AssetInfo::NativeToken { denom: to.into() }), epoch_config: None }, &[])
+            }
             _ => {
                 self.w.advance(x as u64, 1);
                 Res::Ok(Default::default())
             }
         };
-        let dpre_dummy = String::new();
-        let _ = dpre_dummy;
-        ev.insert("args".into(), json!({"x": s(x)}));
-        ev.insert("pre".into(), pre);
-        ev.insert("res".into(), json!(rs.tag()));
-        ev.insert("err".into(), jerr(&rs.err()));
-        ev.insert("out".into(), json!({"paid": s(self.w.balance(&u, &A::Native("uwhale".into())).saturating_sub(wallet_before)),
-            "received": s(self.w.balance(&self.hub.distributor, &A::Native("uwhale".into())).saturating_sub(dbal_before))}));
-        ev.insert("obs".into(), self.obs());
-        rec.emit(Value::Object(ev));
+        for (k, d) in denoms.iter().enumerate() {
+            let mut ev = serde_json::Map::new();
+            ev.insert("run".into(), json!(if multi { run * 2 + k as u64 } else { run }));
+            ev.insert("step".into(), json!(step));
+            ev.insert("ev".into(), json!(op));
+            ev.insert("actor".into(), json!(actor));
+            ev.insert("args".into(), json!({"x": s(x), "denom": d}));
+            ev.insert("pre".into(), pres[k].clone());
+            ev.insert("res".into(), json!(rs.tag()));
+            ev.insert("err".into(), jerr(&rs.err()));
+            ev.insert("out".into(), json!({"paid": s(self.w.balance(&u, &A::Native((*d).into())).saturating_sub(wallet_before[k])),
+                "received": s(self.w.balance(&self.hub.distributor, &A::Native((*d).into())).saturating_sub(dbal_before[k]))}));
+            ev.insert("obs".into(), self.obs_for(d));
+            if multi { self.bufs[k].push(Value::Object(ev)); } else { rec.emit(Value::Object(ev)); }
+        }
+    }
+
+    /// multi mode: the per-asset projections are emitted one after the other, each as a run of its own
+    pub fn flush(&mut self, rec: &mut Rec) {
+        for k in 0..self.bufs.len() {
+            for e in std::mem::take(&mut self.bufs[k]) { rec.emit(e); }
+        }
     }
 }
 
-fn reset(rec: &mut Rec, p: &DistRun, seed: u64, run: u64, nops: usize, sched: Option<&str>, table: usize) {
+fn reset(rec: &mut Rec, p: &mut DistRun, seed: u64, run: u64, nops: usize, sched: Option<&str>, table: usize) {
+    if p.denoms.len() > 1 {
+        for (k, d) in p.denoms.clone().iter().enumerate() {
+            let base = json!({"ev": "reset", "suite": "dist", "run": run * 2 + k as u64, "base_run": run, "seed": seed.to_string(), "ops": nops, "table": table,
+                "extra": {"kind": "multi"}, "cfg": {"denom": d}, "obs": p.obs_for(d)});
+            p.bufs[k].push(base);
+        }
+        return;
+    }
     let mut base = json!({"ev": "reset", "suite": "dist", "run": run, "seed": seed.to_string(), "ops": nops, "table": table, "obs": p.obs()});
     if let Some(l) = sched {
         base.as_object_mut().unwrap().insert("sched".into(), serde_json::from_str::<Value>(l).unwrap());
@@ -162,7 +206,7 @@ pub fn run_schedule(rec: &mut Rec, seed: u64, run: u64, line: &str, table: usize
     let v: Value = serde_json::from_str(line).unwrap();
     let ops = v["ops"].as_array().unwrap();
     let mut p = DistRun::new(1);
-    reset(rec, &p, seed, run, ops.len(), Some(line), table);
+    reset(rec, &mut p, seed, run, ops.len(), Some(line), table);
     for (i, o) in ops.iter().enumerate() {
         let op = o["op"].as_str().unwrap();
         let ui = match o["u"].as_str().unwrap() { "u1" => 0, "u2" => 1, _ => 2 };
@@ -177,11 +221,11 @@ pub fn run_schedule(rec: &mut Rec, seed: u64, run: u64, line: &str, table: usize
     }
 }
 
-pub fn run_random(rec: &mut Rec, seed: u64, run: u64, nops: usize) {
-    let mut r = gen::rng(seed, run ^ 0x4449_5354);
+pub fn run_random(rec: &mut Rec, seed: u64, run: u64, nops: usize, multi: bool) {
+    let mut r = gen::rng(seed, run ^ if multi { 0x4d55_4c54 } else { 0x4449_5354 });
     let grace = r.gen_range(1..=5u64);
-    let mut p = DistRun::new(grace);
-    reset(rec, &p, seed, run, nops, None, 0);
+    let mut p = DistRun::new_kind(grace, multi);
+    reset(rec, &mut p, seed, run, nops, None, 0);
     let scale = *gen::pick(&mut r, &[1_000u128, 1_000_000_000, 1u128 << 64, 1u128 << 90]);
     let mut g = grace;
     for step in 0..nops {
@@ -194,6 +238,7 @@ pub fn run_random(rec: &mut Rec, seed: u64, run: u64, nops: usize) {
             30..=59 => p.step(rec, run, step, "claim", ui, 0),
             60..=74 => { let x = gen::amount(&mut r, scale); p.step(rec, run, step, "bond", ui, x) }
             75..=84 => { let x = gen::amount(&mut r, scale); p.step(rec, run, step, "unbond", ui, x) }
+            85..=87 if multi => { let x = r.gen_range(0..2u128); p.step(rec, run, step, "setasset", 0, x) }
             85..=90 => {
                 let ng = match r.gen_range(0..5) { 0 => g.saturating_sub(1), 1 => 31, 2 => 0, _ => g + 1 };
                 p.step(rec, run, step, "setgrace", 0, ng as u128);
@@ -203,9 +248,10 @@ pub fn run_random(rec: &mut Rec, seed: u64, run: u64, nops: usize) {
             _ => { let dt = *gen::pick(&mut r, &[1u64, 3_600_000_000_000, DAY / 2, DAY - 1]); p.step(rec, run, step, "tick", ui, dt as u128) }
         }
     }
+    p.flush(rec);
 }
 
-pub fn main(seed: u64, first: u64, runs: u64, nops: usize, out: &str, sched: Option<&String>, table: Option<usize>) {
+pub fn main(seed: u64, first: u64, runs: u64, nops: usize, out: &str, sched: Option<&String>, table: Option<usize>, kind: &str) {
     let mut rec = Rec::create(out);
     if let Some(path) = sched {
         let f = std::io::BufReader::new(std::fs::File::open(path).expect("schedule file"));
@@ -219,8 +265,9 @@ pub fn main(seed: u64, first: u64, runs: u64, nops: usize, out: &str, sched: Opt
             run += 1;
         }
     } else {
+        let multi = kind == "multi";
         for run in first..first + runs {
-            run_random(&mut rec, seed, run, nops);
+            run_random(&mut rec, seed, run, nops, multi);
         }
     }
     let n = rec.finish();
